@@ -66,6 +66,37 @@ def _ord2ymd(n):
     return year, month, n + 1
 
 
+def _ord2ymd_decl(n):
+    """fromordinal for a symbolic ordinal, stated declaratively: the (year, month, day) with
+    _ymd2ord(year, month, day) == n.  Same function as _ord2ymd (checked against the real datetime at
+    every run, symx.models.dtcheck), but linear for the solver: no nested divmod to invert."""
+    import z3
+    ctx = core.CUR
+    yv = z3.Int(ctx.fresh_name('ordyear'))
+    year = core.Num('q', yv, 1, ty=int, iv=(core.Fr(1), core.Fr(9999)))
+    ctx.assume(z3.And(yv >= 1, yv <= 9999))
+    before = _days_before_year(year)
+    after = _days_before_year(year + 1)
+    ctx.assume(z3.And(before.n < n.n, n.n <= after.n))
+    # hint facts (theorems: the day count before a year is strictly increasing, by >= 365 per year --
+    # the per-step fact is discharged by the solver in dtcheck.lemmas()); instantiated for the years whose
+    # ordinals were taken on this path, they let the solver locate `year` without inverting nested floors
+    for t in ctx.memo.get('dt_years', []):
+        gt_1 = _days_before_year(t)          # g(t-1)
+        gt = _days_before_year(t + 1)        # g(t)
+        ctx.assume(z3.And(z3.Implies(yv < t.n, after.n <= gt_1.n), z3.Implies(yv > t.n, before.n >= gt.n)))
+    doy = n - before
+    leap = 1 if _is_leap(year) else 0
+    month = 12
+    for mm in range(1, 12):
+        lim = _DAYS_BEFORE_MONTH[mm + 1] + (leap if mm >= 2 else 0)
+        if doy <= lim:
+            month = mm
+            break
+    day = doy - (_DAYS_BEFORE_MONTH[month] + (leap if month > 2 else 0))
+    return year, month, day
+
+
 def _check_int(v, what):
     if isinstance(v, core.Num):
         if v.ty is not int:
@@ -104,6 +135,8 @@ class date(object):
         self.day = day
 
     def toordinal(self):
+        if isinstance(self.year, core.Num) and core.CUR is not None:
+            core.CUR.memo.setdefault('dt_years', []).append(self.year)
         return _ymd2ord(self.year, self.month, self.day)
 
     @classmethod
@@ -111,7 +144,10 @@ class date(object):
         n = _check_int(n, 'ordinal')
         if not (n >= 1 and n <= 3652059):
             raise ValueError('ordinal must be >= 1')
-        y, m, d = _ord2ymd(n)
+        if isinstance(n, core.Num) and n.cval() is None:
+            y, m, d = _ord2ymd_decl(n)
+        else:
+            y, m, d = _ord2ymd(n)
         r = date.__new__(date)
         r.year, r.month, r.day = y, m, d
         return r
